@@ -29,7 +29,11 @@ type C01Case struct {
 	Real     bool     `json:"real"`
 	Fails    []bool   `json:"fails"`           // per call (cycled): the handler fails with an error that embeds the request's nonce
 	Lists    bool     `json:"lists,omitempty"` // lib layer: every fourth in-flight slot is a tools/list or prompts/list instead of a call
+	IDBase   int64    `json:"idbase,omitempty"` // lib layer: the client has already issued this many requests (its id counter starts here)
 }
+
+// counter positions of a long-lived client: around 10^6 (where %v starts to print a float64 with an exponent), 2^31, 2^32 and below 2^53
+var c01IDBases = []int64{0, 0, 0, 999990, 999999, 1000000, 123456789, 1<<31 - 20, 1<<32 - 20, 99999999999999, 1<<53 - 2000}
 
 var c01IDPool = []string{`1`, `"1"`, `0`, `""`, `-7`, `2147483648`, `9007199254740991`, `9007199254740992`, `"a"`, `"id-é"`, `"💥"`, `"x y"`, `"%d"`, `"1e3"`, `1000000`, `12345678`, `"null"`, `"true"`}
 
@@ -63,6 +67,7 @@ func genC01(t *rapid.T) C01Case {
 		c.Fails = append(c.Fails, rapid.IntRange(0, 2).Draw(t, "fail") == 2)
 	}
 	c.Lists = rapid.Bool().Draw(t, "lists")
+	c.IDBase = rapid.SampledFrom(c01IDBases).Draw(t, "idbase")
 	if c.Mode == ModeStdio && c.Layer == "lib" {
 		c.Clients = 1 // one child per client; keep the process count down
 		if rapid.Bool().Draw(t, "stdioclients") {
@@ -73,7 +78,11 @@ func genC01(t *rapid.T) C01Case {
 }
 
 func ntC01(c C01Case) (bool, []string) {
-	return c.InFlight >= 2 || c.Clients >= 2, []string{"mode=" + c.Mode.String(), "layer=" + c.Layer}
+	l := []string{"mode=" + c.Mode.String(), "layer=" + c.Layer}
+	if c.Layer == "lib" {
+		l = append(l, fmt.Sprintf("idbase=%d", c.IDBase))
+	}
+	return c.InFlight >= 2 || c.Clients >= 2, l
 }
 
 func c01Answer(nonce string, size int) string {
@@ -149,6 +158,9 @@ func execC01Lib(c C01Case) *Failure {
 			return Failf("C01/connect", "%s: %v", c.Mode, err)
 		}
 		defer lc.Close()
+		if c.IDBase != 0 {
+			mcp.VerifSetRequestCounter(lc.C, c.IDBase)
+		}
 		clients = append(clients, lc)
 	}
 	type result struct {
@@ -249,7 +261,7 @@ func execC01Lib(c C01Case) *Failure {
 		}
 		wg.Wait()
 	}
-	where := fmt.Sprintf("%s lib clients=%d inflight=%d rounds=%d (max handler concurrency %d)", c.Mode, c.Clients, c.InFlight, c.Rounds, w.MaxFly.Load())
+	where := fmt.Sprintf("%s lib clients=%d inflight=%d rounds=%d ids from %d (max handler concurrency %d)", c.Mode, c.Clients, c.InFlight, c.Rounds, c.IDBase+1, w.MaxFly.Load())
 	for _, r := range results {
 		if r.list {
 			want := map[int]string{2: "__counts,echo", 1: "echo"}[r.size]
